@@ -710,10 +710,15 @@ def judgeLine2 (j : JSt) (lineNo : Nat) (opLine obsLine : String) : JSt :=
       let j := { j with sameChecks := j.sameChecks + 1 }
       match j.lastObs.find? (·.1 = a), j.lastObs.find? (·.1 = b) with
       | some (_, x), some (_, y) =>
-        let prop := match j.getMon a with
-          | some m => if m.origin = "C13" ∨ m.origin = "C10" then "C10" else "C14"
-          | none => "C14"
-        if x == y then j else j.reject prop lineNo (if prop = "C14" then "the graph after deploy_to() differs from the graph after the same direct calls" else "the same query on the original and on the clone gives different graphs")
+        -- judged only where the comparison is meant: after a script on `a` (C14), or on a clone / its slices (C10)
+        let origin := match j.getMon a with
+          | some m => if m.judged then m.origin else ""
+          | none => ""
+        if origin = "C14" then
+          if x == y then j else j.reject "C14" lineNo "the graph after deploy_to() differs from the graph after the same direct calls"
+        else if origin = "C10" ∨ origin = "C13" then
+          if x == y then j else j.reject "C10" lineNo "the same query on the original and on the clone gives different graphs"
+        else j
       | _, _ => j
     | _, _ => j
   | ["script", a, t] =>
